@@ -35,7 +35,7 @@ LETTERS = "abcdefgh"
 DEFAULT_CFG = dict(max_depth=3, max_fields=4, max_alts=3, classes=True, aggregates=True,
                    constraints=True, recursion=True, generics=False, typeddict=True,
                    namedtuple=True, initvar=True, skip=True, dep_req=True, class_aliaser=True,
-                   unsup=True, any=True, undefined=True, enums=True)
+                   unsup=True, any=True, undefined=True, enums=True, fall_back=True, explicit_unique=True)
 
 
 def pick(draw, xs):
@@ -94,7 +94,7 @@ class TypeGen:
                 c["min_items"] = lo
             if chance(d, 0.5):
                 c["max_items"] = lo + d(st.integers(0, 2))
-            if chance(d, 0.25):
+            if self.cfg["explicit_unique"] and chance(d, 0.25):
                 c["unique"] = True
         elif kind == "object":
             lo = d(st.integers(0, 2))
@@ -242,7 +242,7 @@ class TypeGen:
             elif inner_kind == "tuple":
                 n = d(st.integers(1, 3))
                 inner = {"k": "tuple", "sp": "Tuple", "items": [self.type(depth - 1) for _ in range(n)]}
-                c = {"unique": True} if chance(d, 0.3) else None
+                c = {"unique": True} if self.cfg["explicit_unique"] and chance(d, 0.3) else None
             else:
                 inner = {"k": "map", "sp": pick(d, ["Dict", "Mapping"]), "key": {"k": "str"}, "val": self.type(depth - 1)}
                 c = self.constraints("object")
@@ -401,7 +401,7 @@ class TypeGen:
         if f.get("default") is not None:
             if chance(d, 0.1) and f.get("kind") != "init_false" and agg is None:
                 f["required"] = True  # (meaningless on aggregate fields: they are never "absent")
-            elif chance(d, 0.15):
+            elif cfg["fall_back"] and chance(d, 0.15):
                 f["fall_back"] = True
         if cfg["skip"] and flavor == "dataclass" and agg is None and f.get("kind", "normal") == "normal" and chance(d, 0.1):
             form = pick(d, ["both", "de", "ser", "ser_default", "ser_if"])
